@@ -82,8 +82,10 @@ func init() {
 }
 
 type result struct {
-	val interface{}
-	err error
+	val        interface{}
+	err        error
+	start, end time.Time
+	ownCtxErr  error // the caller's own context after Invoke returned
 }
 
 func runCase(c Case) (nt bool, classes []string, err error) {
@@ -183,8 +185,9 @@ func runCase(c Case) (nt bool, classes []string, err error) {
 						results[i] = result{err: fmt.Errorf("ESCAPED PANIC: %v", p)}
 					}
 				}()
+				t0 := time.Now()
 				v, err := f.Invoke(ctx, i)
-				results[i] = result{v, err}
+				results[i] = result{val: v, err: err, start: t0, end: time.Now(), ownCtxErr: ctx.Err()}
 			}()
 			release()
 		}()
@@ -267,6 +270,26 @@ func runCase(c Case) (nt bool, classes []string, err error) {
 			}
 			if !anyCancel {
 				return false, nil, fmt.Errorf("caller %d: context error without any cancellation in the case", i)
+			}
+			if r.ownCtxErr == nil {
+				// its own context is alive: the error must come from a batch it really shared
+				// with a cancelled creator, i.e. some cancelled caller of the same shard was
+				// still inside Invoke when this caller arrived
+				shared := false
+				for j, o := range results {
+					if j == i || o.ownCtxErr == nil {
+						continue
+					}
+					if c.Shards > 0 && i%c.Shards != j%c.Shards {
+						continue
+					}
+					if o.end.After(r.start) {
+						shared = true
+					}
+				}
+				if !shared {
+					return false, nil, fmt.Errorf("caller %d has a live context and arrived after every cancelled caller of its shard had returned, yet got %q and its argument was never handed to the batch function (stale error of a finished batch)", i, r.err)
+				}
 			}
 			continue
 		}
